@@ -614,6 +614,9 @@ type memRoundTripper struct {
 	hosts map[string]*goat.GoatOverHttp
 	n     int
 	Codes []int
+	// CtxErr: a POST whose request context has ended by the time the peer's answer is in
+	// fails with that context's error, as net/http's own transport reports it
+	CtxErr bool
 }
 
 func (m *memRoundTripper) RoundTrip(r *http.Request) (*http.Response, error) {
@@ -637,6 +640,11 @@ func (m *memRoundTripper) RoundTrip(r *http.Request) (*http.Response, error) {
 	histMu.Lock()
 	m.Codes = append(m.Codes, rec.Code)
 	histMu.Unlock()
+	if m.CtxErr {
+		if err := r.Context().Err(); err != nil {
+			return nil, err
+		}
+	}
 	return rec.Result(), nil
 }
 
@@ -838,6 +846,30 @@ func execHTTPTransport(e *Env, p *TransportParams) {
 	case 5:
 		cancelledReads(e, "http", aToB, lazyB, envsOf(p, true))
 	case 0:
+		if p.TickAt%3 == 0 {
+			// envelopes the far end refuses with a 400 (no header, no source, a source its
+			// mapping rejects), written before the good ones: each such Write fails (the
+			// envelope was not delivered), and what follows is unaffected
+			bads := []*Rpc{
+				{Id: 7, Body: &goatorepo.Body{Data: []byte("no header")}},
+				{Id: 8, Header: &goatorepo.RequestHeader{Method: "/m", Destination: "peer-b"}, Body: &goatorepo.Body{Data: []byte("no source")}},
+				{Id: 9, Header: &goatorepo.RequestHeader{Method: "/m", Source: "rejected", Destination: "peer-b"}},
+				{},
+			}
+			var errs []error
+			e.Call("http.rejected.writer", func() {
+				for i := 0; i <= p.TickAt%4; i++ {
+					e.Pt("t.write")
+					errs = append(errs, aToB.Write(context.Background(), bads[i]))
+				}
+			})
+			e.Note("http.rejected-writes")
+			for i, err := range errs {
+				if err == nil {
+					e.Violate(prop, "write-success-on-rejected-post", "http.Write", "envelope %d (%v), which the far end answers with HTTP 400 and does not deliver, was written with a nil error", i, bads[i])
+				}
+			}
+		}
 		roundTrip(e, "http", aToB, lazyB, envsOf(p, true))
 	case 1:
 		// a Read blocked on a connection that never gets anything
